@@ -87,7 +87,7 @@ def csv_rule(draw, escapes=True, quotes=False, relative=False, tag_only_p=2):
     pat = draw(regex_pat(escapes, quotes))
     mods = draw(st.lists(st.one_of([amount_mod, date_mod] + ([relative_mod] if relative else [])), max_size=2))
     tag_only = draw(st.integers(0, 9)) < tag_only_p
-    tags = draw(st.lists(st.sampled_from(['recurring', 'Food', 'INCOME', 'transfer', 'big-box', 'x y', '#tax', 'schedule #e']), min_size=1 if tag_only else 0, max_size=2))
+    tags = draw(st.lists(st.sampled_from(['recurring', 'Food', 'INCOME', 'transfer', 'big-box', 'x y', '#tax', 'schedule #e', '401(k)', 'a,b', 'ride(share', 'fy{24}']), min_size=1 if tag_only else 0, max_size=2))
     # hand-written CSV files often carry a blank after the comma (`NETFLIX, Netflix, Subscriptions`): the cell is then ' Netflix'
     pad = draw(st.sampled_from([('', '')] * 5 + [(' ', ''), (' ', ' '), ('', '  ')]))
     P = lambda x: (pad[0] + x + pad[1]) if x else x
